@@ -350,6 +350,45 @@ func xlateUnit(root string, u *xUnit, ld *xLoader, records map[string]*types.Nam
 			}
 			outs = append(outs, found)
 		}
+		// nothing the statements set may be used further down in the function unless it is handed on
+		handed := map[types.Object]bool{}
+		for _, v := range outs {
+			handed[v] = true
+		}
+		set := map[types.Object]bool{}
+		for _, s := range body {
+			ast.Inspect(s, func(n ast.Node) bool {
+				switch n := n.(type) {
+				case *ast.AssignStmt:
+					for _, l := range n.Lhs {
+						if id, ok := l.(*ast.Ident); ok {
+							set[x.info.ObjectOf(id)] = true
+						} else if ie, ok := l.(*ast.IndexExpr); ok {
+							if id, ok := ie.X.(*ast.Ident); ok {
+								set[x.info.ObjectOf(id)] = true
+							}
+						}
+					}
+				case *ast.IncDecStmt:
+					if id, ok := n.X.(*ast.Ident); ok {
+						set[x.info.ObjectOf(id)] = true
+					}
+				case *ast.ValueSpec:
+					for _, id := range n.Names {
+						set[x.info.ObjectOf(id)] = true
+					}
+				}
+				return true
+			})
+		}
+		ast.Inspect(fd.Body, func(n ast.Node) bool {
+			if id, ok := n.(*ast.Ident); ok && id.Pos() >= hi {
+				if o := x.info.Uses[id]; o != nil && set[o] && !handed[o] {
+					x.fail(id, "%s is set by the translated statements and used after them, but is not among the unit's outputs", id.Name)
+				}
+			}
+			return true
+		})
 		// names of the outputs are fixed before the body is translated
 		for _, v := range outs {
 			x.declare(v)
